@@ -156,11 +156,15 @@ Definition op_ok (s : state) (p : op) : Prop :=
   | _ => True
   end.
 
-Lemma W_sub_step ats s : W s -> W (fst (sub_step ats s)).
+Lemma W_sub_step_g rh ats s : W s -> W (fst (sub_step_g rh ats s)).
 Proof.
-  intros Ws. unfold sub_step. pose proof (W_step_sub ats s Ws) as K.
-  destruct (substructure ats (s_heap s) (s_cur s)) as [[[h2 o2] [e|]]|e]; exact K.
+  intros Ws. unfold sub_step_g. destruct s as [h o others]. cbn [s_heap s_cur s_others].
+  destruct (substructure_g rh ats h o) as [[[h2 o2] e]|err] eqn:E; [|exact Ws].
+  destruct (W_sub_g rh ats h o others h2 o2 e Ws E) as [X K].
+  destruct e as [e|]; cbn [fst]; [now apply (W_heap_ext h h2) | now apply K].
 Qed.
+Lemma W_sub_step ats s : W s -> W (fst (sub_step ats s)).
+Proof. apply W_sub_step_g. Qed.
 Lemma W_split_loop cs : forall s old, W s -> W (mkS (s_heap s) (s_cur s) old) -> W (fst (split_loop cs s old)).
 Proof.
   induction cs as [|c t IH]; intros [h o others] old Ws Wo; cbn [split_loop fst s_heap s_cur s_others] in *; [exact Ws|].
@@ -188,6 +192,7 @@ Proof.
     destruct (aug_grow (o_adj (s_cur s)) ats deep); [now apply W_sub_step | exact Ws].
   - assert (W (fst (lift (read Kcc) s))) as W1 by (apply W_lift; [exact Ws | apply read_good | now apply read_HC]).
     apply W_split_loop; [exact W1|]. destruct (fst (lift (read Kcc) s)); exact W1.
+  - now apply W_sub_step_g.
   - destruct s as [h o [|a t]]; [exact Ws | now apply W_swap].
   - apply W_strong; [exact Ws | apply flush_good | apply flush_strong].
   - now apply W_step_enter.
